@@ -40,6 +40,7 @@ def c20dialc (a : List String) (obs : String) : String × String :=
     let finish : Option Nat := match parseU dd, parseU hs with | some d, some h => some (d + h) | _, _ => none
     let verdict :=
       if obs.startsWith "HANG" then "bad:dial-never-returned"
+      else if err == "panic" then "bad:dial-panicked"
       else if getF obs "hung" == "1" then "bad:dial-waits-on-a-silent-peer-past-the-limit"
       else if getF obs "late" == "1" then "bad:dial-returned-later-than-the-earlier-of-context-end-and-timeout"
       else if getF obs "leak" == "1" then "bad:watcher-goroutine-still-running"
